@@ -65,6 +65,9 @@ func newWindow(c Case) (window.Window, error) {
 		WatermarkInterval: time.Hour,
 		MaxOutOfOrderness: time.Duration(cfgInt(c, "ooo", 0)),
 		AllowedLateness:   time.Duration(cfgInt(c, "late", 0)),
+		// idle 1: IDLETIMEOUT of 1 ns — every ticker update finds the source idle and advances the
+		// watermark to (wall clock − MAXOUTOFORDERNESS), decades after all synthetic timestamps
+		IdleTimeout: time.Duration(cfgInt(c, "idle", 0)),
 	}
 	if mode == "et" {
 		wc.TimeCharacteristic = types.EventTime
